@@ -803,6 +803,8 @@ def eq_vals(m, a, b):
             return _n(a == b)
         return False
     ta, tb = type(a), type(b)
+    if (ta is Opaque and _strlike(a) and tb in (str, Opaque)) or (tb is Opaque and _strlike(b) and ta in (str, Opaque)):
+        return str_eq(m, a, b)
     if ta is tuple and tb is tuple:
         if len(a) != len(b):
             return False
@@ -830,6 +832,98 @@ def eq_vals(m, a, b):
 
 
 _CMP = {"<", "<=", ">", ">="}
+
+
+def _parts(x):
+    if type(x) is str:
+        return [x] if x else []
+    if type(x) is Opaque and type(x.what) is tuple and x.what and x.what[0] == "cat":
+        return list(x.what[1])
+    if type(x) is Opaque:
+        return [x]
+    raise Unsupported("string part %r" % (x,))
+
+
+def str_cat(a, b):
+    """concatenation with uninterpreted pieces: a normalised list of concrete segments and opaque pieces"""
+    out = []
+    for p in _parts(a) + _parts(b):
+        if type(p) is str and out and type(out[-1]) is str:
+            out[-1] = out[-1] + p
+        else:
+            out.append(p)
+    if not out:
+        return ""
+    if len(out) == 1:
+        return out[0]
+    return Opaque(("cat", tuple(out)))
+
+
+def _strlike(x):
+    w = x.what
+    return type(w) is tuple and len(w) > 0 and w[0] in ("cat", "FormatInt", "FormatUint")
+
+
+def _fmtnum(x):
+    w = x.what if type(x) is Opaque and type(x.what) is tuple else None
+    if w and w[0] in ("FormatInt", "FormatUint"):
+        return w
+    return None
+
+
+def str_eq(m, a, b):
+    """equality of strings with uninterpreted pieces (formula).  Two concatenations with the same shape (same concrete
+    segments at the same places, separating the formatted numbers) are equal iff their pieces are; formatted numbers of
+    one base are equal iff the numbers are (strconv.FormatInt/FormatUint are injective)."""
+    if type(a) is str and type(b) is str:
+        return a == b
+    pa, pb = _parts(a), _parts(b)
+    if len(pa) == 1 and len(pb) == 1:
+        x, y = pa[0], pb[0]
+        if type(x) is str or type(y) is str:
+            s_, o_ = (x, y) if type(x) is str else (y, x)
+            w = _fmtnum(o_)
+            if w:
+                try:
+                    n = int(s_, w[2])
+                except ValueError:
+                    return False
+                if s_ != s_.strip() or s_.startswith("+") or (len(s_) > 1 and s_.lstrip("-").startswith("0")):
+                    return False
+                return eq_vals(m, w[1], n)
+            return False if o_.what and o_.what[0] in ("fmt", "json") and s_ == "" else _unsup_eq(a, b)
+        wx, wy = _fmtnum(x), _fmtnum(y)
+        if wx and wy:
+            if wx[2] != wy[2]:
+                raise Unsupported("equality of numbers formatted in different bases")
+            return eq_vals(m, wx[1], wy[1])
+        if x.what == y.what:
+            return True
+        return _unsup_eq(a, b)
+    if len(pa) != len(pb):
+        # a concrete segment that the other side cannot contain decides it; otherwise undecidable here
+        ca = "".join(p for p in pa if type(p) is str)
+        cb = "".join(p for p in pb if type(p) is str)
+        if all(type(p) is str for p in pa) or all(type(p) is str for p in pb):
+            full, other = (ca, pb) if all(type(p) is str for p in pa) else (cb, pa)
+            for p in other:
+                if type(p) is str and p not in full:
+                    return False
+        return _unsup_eq(a, b)
+    out = True
+    for x, y in zip(pa, pb):
+        if (type(x) is str) != (type(y) is str):
+            return _unsup_eq(a, b)
+        if type(x) is str:
+            if x != y:
+                return False
+            continue
+        out = AND(out, str_eq(m, x, y))
+    return out
+
+
+def _unsup_eq(a, b):
+    raise Unsupported("cannot decide equality of strings %r and %r" % (a, b))
 
 
 def int_binop(m, op, x, y, bits, signed):
@@ -973,9 +1067,11 @@ def i_binop(m, alt, fr, ins, work):
         elif c == "string":
             def sop(a, b):
                 if type(a) is not str or type(b) is not str:
-                    if op in ("==", "!=") and (isinstance(a, Opaque) or isinstance(b, Opaque)):
-                        r = (a == b)
-                        return r if op == "==" else not r
+                    if op == "+":
+                        return str_cat(a, b)
+                    if op in ("==", "!="):
+                        r = str_eq(m, a, b)
+                        return r if op == "==" else NOT(r)
                     raise Unsupported("string op on %r %r" % (a, b))
                 if op == "+":
                     return a + b
